@@ -771,14 +771,14 @@ Section FilterProofs.
     unfold filter_one, keepb, has_isnodetype.
     destruct o as [n|].
     - cbn [is_none]. rewrite andb_false_r. cbn [negb andb].
-      destruct pred; destruct n; destruct skipcomments, skipws; cbn [sbind is_comment is_ws_chars andb negb];
+      destruct n; destruct skipcomments, skipws; cbn [sbind is_comment is_ws_chars andb negb];
         try rewrite strip_empty_forallb;
         try (intros H; inversion H; reflexivity); try discriminate;
         try (destruct (forallb py_isspace chars); cbn [negb andb]; intros H; inversion H; reflexivity).
     - cbn [is_none is_comment is_ws_chars]. rewrite !andb_false_r, andb_true_r. cbn [negb andb].
       destruct skipnone; cbn [negb andb]; [intros H; inversion H; reflexivity|].
       destruct skipcomments; cbn [sbind]; [discriminate|].
-      destruct skipws; cbn [sbind]; [discriminate|]. destruct pred; intros H; inversion H; reflexivity.
+      destruct skipws; cbn [sbind]; [discriminate|]. intros H; inversion H; reflexivity.
   Qed.
 
   Lemma filter_loop_spec : forall l fl,
